@@ -383,6 +383,13 @@ func ClientRun(osenv *rsyncos.Env, opts *rsyncopts.Options, conn io.ReadWriter, 
 		Seed:     seed,
 		Progress: progress.NewPrinter(osenv.Stdout, time.Now),
 	}
+	if opts.DeleteMode() {
+		exclusionList, err := sender.ParseFilterRules(opts.FilterRules())
+		if err != nil {
+			return nil, err
+		}
+		rt.Opts.ExcludeFromDelete = exclusionList.Matches
+	}
 	if opts.Verbose() {
 		osenv.Logf("receiving to dest=%s", rt.Dest)
 	}
